@@ -676,6 +676,9 @@ func corpus() []desc {
 		{Method: "GET", Target: "/", Proto: "HTTP/1.1", Hdrs: [][2]hlib.B{H("Host", "h"), H("Connection", "Close")}},
 		{Method: "GET", Target: "/", Proto: "HTTP/1.1", Hdrs: [][2]hlib.B{H("Host", "h"), H("Connection", "keep-alive, Upgrade"), H("Upgrade", "x")}},
 		{Method: "GET", Target: "/", Proto: "HTTP/1.0", Hdrs: [][2]hlib.B{H("Host", "h"), H("Connection", "keep-alive")}},
+		{Method: "GET", Target: "/", Proto: "HTTP/1.1", Hdrs: [][2]hlib.B{H("Host", "h"), H("Connection", "close"), H("Connection", "foo")}},
+		{Method: "GET", Target: "/", Proto: "HTTP/1.1", Hdrs: [][2]hlib.B{H("Host", "h"), H("Connection", "keep-alive"), H("Connection", "upgrade, Close")}},
+		{Method: "GET", Target: "/", Proto: "HTTP/1.0", Hdrs: [][2]hlib.B{H("Host", "h"), H("Connection", "foo"), H("Connection", "keep-alive")}},
 		{Method: "OPTIONS", Target: "*", Proto: "HTTP/1.1", Hdrs: [][2]hlib.B{H("Host", "h")}},
 		{Method: "CONNECT", Target: "h:443", Proto: "HTTP/1.1", Hdrs: [][2]hlib.B{H("Host", "h:443")}},
 		{Method: "GET", Target: "/x", Proto: "HTTP/2.0", Hdrs: [][2]hlib.B{H("Host", "h")}},
@@ -743,8 +746,8 @@ func genConv(r *rand.Rand) desc {
 	for n := r.Intn(6) / 3; n >= 0 && r.Intn(3) == 0; n-- {
 		hs = append(hs, H(hlib.Pick(r, []string{"Cookie", "cookie"}), hlib.Pick(r, []string{"a=1", "b=2; c=3", "sid=xyz"})))
 	}
-	if r.Intn(4) == 0 {
-		hs = append(hs, H("Connection", hlib.Pick(r, []string{"close", "keep-alive", "keep-alive, Upgrade", "Close", "upgrade", "keep-alive, close"})))
+	for n := 1 + r.Intn(4)/3; n > 0 && r.Intn(3) == 0; n-- {
+		hs = append(hs, H("Connection", hlib.Pick(r, []string{"close", "keep-alive", "keep-alive, Upgrade", "Close", "upgrade", "keep-alive, close", "foo ,close", "keep-alive,\tclose", "keep-alive\t, Upgrade"})))
 	}
 	if r.Intn(30) == 0 {
 		hs = append(hs, H("Pragma", "no-cache"))
